@@ -140,3 +140,27 @@ Definition goast_resolve (imports : list (string * string)) (is_sel : bool) (x_n
        | Some n => if x_has_obj then ""
                    else match find (fun e => String.eqb (fst e) n) imports with Some e => snd e | None => "" end
        end.
+
+(* ---- the package-name resolvers of the library: guess and simple (maps path -> name) ----------- *)
+Fixpoint contains_slash (s : string) : bool :=
+  match s with EmptyString => false | String c r => Ascii.eqb c "/"%char || contains_slash r end.
+
+(* importPath[strings.LastIndex(importPath, "/")+1:] *)
+Fixpoint after_last_slash (s : string) : string :=
+  match s with
+  | EmptyString => EmptyString
+  | String c r => if contains_slash r then after_last_slash r else if Ascii.eqb c "/"%char then r else s
+  end.
+
+Definition map_get (m : list (string * string)) (k : string) : option string :=
+  match find (fun e => String.eqb (fst e) k) m with Some e => Some (snd e) | None => None end.
+
+(* simple.RestorerResolver.ResolvePackage: the map entry, or ErrPackageNotFound *)
+Definition simple_resolve (m : list (string * string)) (p : string) : option string := map_get m p.
+
+(* guess.RestorerResolver.ResolvePackage: the map entry, else the last element of the path *)
+Definition guess_resolve (m : list (string * string)) (p : string) : string :=
+  match map_get m p with
+  | Some n => n
+  | None => if contains_slash p then after_last_slash p else p
+  end.
